@@ -228,6 +228,13 @@ def build(entry, rs):
 
 
 def run_case(case, ctx):
+    try:
+        _run_case(case, ctx)
+    except np.linalg.LinAlgError:
+        ctx.skip("singular problem")
+
+
+def _run_case(case, ctx):
     import warnings
     warnings.simplefilter("ignore")
     entry = case["gen"]
